@@ -1130,6 +1130,74 @@ def _membership_implies(ex, key):
 
 
 # --------------------------------------------------------------------------------------------- C07-11
+def _path_avoiding_first_iteration_aware(cfg, src, dst, avoid):
+    """cfg.path_avoiding, refined by one feasibility fact: inside `for v in range(start, ..)` the test `v == start` is true in the first iteration and false in
+    every later one (the idiom `if i == 0: <initialise>`).  Search over (node, set of loops that are in their first iteration)."""
+    from collections import deque
+    loops = {}
+    for (h, kind, st) in cfg.loops:
+        if kind == "for" and isinstance(st.target, ast.Name) and isinstance(st.iter, ast.Call) and isinstance(st.iter.func, ast.Name) and st.iter.func.id == "range" and 1 <= len(st.iter.args) <= 3:
+            start = 0 if len(st.iter.args) == 1 else const_value(st.iter.args[0])
+            if start is not None:
+                body_assigns = any(isinstance(x, ast.Name) and x.id == st.target.id and isinstance(x.ctx, ast.Store) for b_ in st.body for x in ast.walk(b_))
+                if not body_assigns:
+                    loops[h] = (st.target.id, start, cfg.loop_nodes(h))
+
+    def forced(node, first):
+        """None, or the only feasible outcome of this cond"""
+        if cfg.kind(node) != "cond":
+            return None
+        t = cfg.ast_of(node)
+        if not (isinstance(t, ast.Compare) and len(t.ops) == 1 and isinstance(t.ops[0], (ast.Eq, ast.NotEq))):
+            return None
+        for h, (var, start, body) in loops.items():
+            if node not in body:
+                continue
+            sides = (t.left, t.comparators[0])
+            for a, b_ in (sides, sides[::-1]):
+                if isinstance(a, ast.Name) and a.id == var and const_value(b_) == start:
+                    is_first = h in first
+                    return is_first if isinstance(t.ops[0], ast.Eq) else (not is_first)
+        return None
+
+    avoid = set(avoid)
+    s0 = (src, frozenset())
+    prev = {s0: None}
+    dq = deque([s0])
+    goal = None
+    while dq:
+        cur = dq.popleft()
+        node, first = cur
+        if node == dst and node != src:
+            goal = cur
+            break
+        want = forced(node, first)
+        for m in cfg.g.successors(node):
+            e = cfg.g[node][m]
+            if e["kind"] == "exc":
+                continue
+            if want is not None and e.get("label") in (True, False) and e["label"] != want:
+                continue
+            if m in avoid and m != dst:
+                continue
+            f2 = first
+            if m in loops:
+                f2 = (first - {m}) if e["kind"] in ("back", "continue") else (first | {m})
+            nxt = (m, f2)
+            if nxt in prev:
+                continue
+            prev[nxt] = cur
+            dq.append(nxt)
+    if goal is None:
+        return None
+    path = []
+    cur = goal
+    while cur is not None:
+        path.append(cur[0])
+        cur = prev[cur]
+    return path[::-1]
+
+
 def rule_definite_assignment(eng, rep, rule="C07-11.locals-are-assigned-before-use"):
     """A local that is read on a path on which it was never assigned raises UnboundLocalError in the middle of a solve.  Every such
     (function, variable) pair must be in the frozen, confirmed-by-reading table; anything else is reported."""
@@ -1171,6 +1239,8 @@ def rule_definite_assignment(eng, rep, rule="C07-11.locals-are-assigned-before-u
                 continue
             nuse += 1
             p = cfg.path_avoiding(cfg.entry, n, [x for x in defnodes.get(node.id, []) if x != n])
+            if p is not None:
+                p = _path_avoiding_first_iteration_aware(cfg, cfg.entry, n, [x for x in defnodes.get(node.id, []) if x != n])
             if p is None:
                 continue
             flagged.add(node.id)
